@@ -66,13 +66,21 @@ MAP_KEYS = [b"name", b"title", b"count", b"valID", b"items", b"meta", b"k1", b"k
             b"valid", b"Title", b"q'q", b"<b>", b"Xy", b"xy", b"userID", b"userid", b"label", b"_u", b"A", b"a"]
 STRINGS = [b"", b"v", b"hello", b"<b>&\"'", b"a b", b"\xc3\xa9t\xc3\xa9", b"0", b"true", b"x>y", b"it's", b"line\nbreak", b"{{x}}", b"%d",
            b"\xff\xfe<", b"&amp;", b"<func() string Value>", b"null", b"-7", b" lead", b"\x00z"]
+# exported names whose first letter is not ASCII (two-byte letters of Latin-1, Greek, Cyrillic), alone or next to
+# an ASCII name that differs from them only in that letter
+WIDE_NAMES = ["Ärger", "Übersicht", "Österreich", "Élan", "Ωmega", "Ñandú", "Øre", "Ýmir", "Δelta", "Жук", "Àpropos",
+              "Çedilla", "Ær", "Þing", "Σum", "Яблоко", "Äa", "Ö", "Ünï"]
+WIDE_STRUCT_SHARE = 0.12    # share of the reflect.StructOf types (anywhere in the data) with such field names
+WIDE_SHARE = 0.08           # share of the page data that is built around a struct with such members
+WIDE_PATH_SHARE = 0.5       # where page data has such a member: share of its paths that go through one
 ABSENT_NAMES = [b"missing", b"zz", b"nope", b"hidden", b"secret", b"q", b"other", b"x1", b"valid", b"name", b"id", b"len", b"Length"]
 
 SIG = {"Label": b"func() string", "Double": b"func() int", "TagList": b"func() []string", "Total": b"func() int",
        "Follow": b"func() *main.C11Item", "IsBig": b"func() bool", "BaseNote": b"func() string",
        "Amount": b"func() int", "Code": b"func() string", "Count": b"func() int", "Owner": b"func() *shop.Product",
        "Holder": b"func() string", "Caption": b"func() string", "Sum": b"func() int", "Kind": b"func() string",
-       "Tag": b"func() string", "Slug": b"func() string"}
+       "Tag": b"func() string", "Slug": b"func() string",
+       "Österreich": b"func() string", "Ñandú": b"func() int"}
 
 
 # ------------------------------------------------------------------ look-alike types (mirror of harness/c11_twins.go,
@@ -125,8 +133,14 @@ TWINS = {
           "OuterX": {"struct": [["Inner", "str"], ["inner", TW("K", "inner")]], "emb": ["inner"], "vm": ["Tag"], "pm": []},
           "OuterY": {"struct": [["inner", TW("K", "inner")], ["Inner", "str"], ["rank", "int"]], "emb": ["inner"], "vm": ["Tag"], "pm": []},
           "OuterP": {"struct": [["Meta", {"ptr": TW("K", "Meta")}], ["meta", "int"], ["Key", "str"]], "emb": ["Meta"], "vm": ["Slug"], "pm": []},
-          "OuterQ": {"struct": [["meta", "str"], ["Meta", {"ptr": TW("K", "Meta")}], ["Note", "str"]], "emb": ["Meta"], "vm": ["Slug"], "pm": []}},
+          "OuterQ": {"struct": [["meta", "str"], ["Meta", {"ptr": TW("K", "Meta")}], ["Note", "str"]], "emb": ["Meta"], "vm": ["Slug"], "pm": []},
+          # members whose first letter is not ASCII: fields, an unexported lower-camel twin, methods of both receivers
+          "Wide": {"struct": [["Ärger", "str"], ["Übersicht", "int"], ["Name", "str"], ["Ωmega", "str"], ["Élan", {"slice": "str"}],
+                              ["ärger", "int"], ["Next", {"ptr": TW("K", "Wide")}]], "emb": [], "vm": ["Österreich"], "pm": ["Ñandú"]},
+          "WideBox": {"struct": [["Über", TW("K", "Wide")], ["Öl", {"ptr": TW("K", "Wide")}], ["Жук", "str"], ["Title", "str"]],
+                      "emb": [], "vm": [], "pm": []}},
 }
+WIDE_TYPES = ["Wide", "Wide", "WideBox"]
 TWIN_GROUPS = [["A", "B", "C", "D"], ["one", "two"]]      # scopes whose types of one name share their String()
 CLASH_TYPES = ["PairEU", "PairUE", "PairMix", "PairDeep", "Getter", "GetterP", "OuterEU", "OuterUE", "OuterX", "OuterY", "OuterP", "OuterQ"]
 # the same members in the other declaration order (or with the other receiver)
@@ -175,6 +189,8 @@ def twin_methods(n):
             return [("Kind", S(b"kind:" + fs(twin_field(n, "Inner"), "Title")))], []
         if name in ("OuterX", "OuterY"):         # promoted from the embedded unexported type
             return [("Tag", S(b"tag:" + fs(twin_field(n, "inner"), "Note")))], []
+        if name == "Wide":
+            return [("Österreich", S(b"at:" + fs(n, "Ärger")))], [("Ñandú", I(fs(n, "Übersicht") + 1))]
         if name in ("OuterP", "OuterQ"):         # promoted from the embedded pointer; Slug tolerates nil
             m = twin_field(n, "Meta")["v"]
             return [("Slug", S(b"nometa" if m is None else b"slug:" + fs(m, "Key")))], []
@@ -190,8 +206,8 @@ def I(n, kind="int"):
 
 
 def is_exported(name):
-    """Go's rule on the ASCII names used here: the first letter is upper-case"""
-    return "A" <= name[:1] <= "Z"
+    """Go's rule: the first letter is upper-case - in Unicode's sense (Ärger and Ωmega are exported, ärger is not)"""
+    return name[:1].isupper()
 
 
 def ident_ok(k):
@@ -200,15 +216,44 @@ def ident_ok(k):
     return all(chr(c).isalnum() or c == 95 for c in k)
 
 
+def name_ok(k):
+    """a member name as a template can write it after a dot: an ASCII identifier, or one with letters beyond ASCII"""
+    if ident_ok(k):
+        return True
+    try:
+        t = k.decode("utf-8")
+    except UnicodeDecodeError:
+        return False
+    return bool(t) and (t[0].isalpha() or t[0] == "_") and all(c.isalnum() or c == "_" for c in t)
+
+
+def first_rune(s):
+    """(first character, rest) of the bytes s when s starts with a well-formed multi-byte UTF-8 letter, else None"""
+    if s and s[0] >= 0xC0:
+        for n in (2, 3, 4):
+            try:
+                return s[:n].decode("utf-8"), s[n:]
+            except UnicodeDecodeError:
+                pass
+    return None
+
+
 def lower_first(s):
+    """the lower-camel spelling a template author writes: the first LETTER lowered (Python's own Unicode tables)"""
     if s and 65 <= s[0] <= 90:
         return bytes([s[0] + 32]) + s[1:]
+    fr = first_rune(s)
+    if fr and len(fr[0].lower()) == 1:
+        return fr[0].lower().encode("utf-8") + fr[1]
     return s
 
 
 def upper_first(s):
     if s and 97 <= s[0] <= 122:
         return bytes([s[0] - 32]) + s[1:]
+    fr = first_rune(s)
+    if fr and len(fr[0].upper()) == 1:
+        return fr[0].upper().encode("utf-8") + fr[1]
     return s
 
 
@@ -416,6 +461,9 @@ def gen_type(rng, depth):
         if rng.random() < 0.3:       # the hand-written family with colliding members
             t = TW("K", rng.choice(CLASH_TYPES))
             return t if rng.random() < 0.6 else {"ptr": t}
+        if rng.random() < 0.2:       # ... with members whose first letter is not ASCII
+            t = TW("K", rng.choice(WIDE_TYPES))
+            return t if rng.random() < 0.5 else {"ptr": t}
         return rng.choice(["Item", "Item", "Emb", "EmbV", "Base", {"ptr": "Item"}, {"ptr": "Emb"}, {"ptr": "EmbV"}, {"ptr": "Base"}])
     if r < 0.95:
         return "Labeler"
@@ -443,6 +491,13 @@ def struct_names(rng, lo, hi, force=False):
     the two collide in the member table), its all-lower spelling (id, url: a near miss), or an unrelated name;
     declared after the exported fields, before them, or anywhere between them"""
     names = rng.sample(FIELD_NAMES, rng.randint(lo, hi))
+    if names and rng.random() < WIDE_STRUCT_SHARE:      # names whose first letter is not ASCII, in any position
+        for w in rng.sample(WIDE_NAMES, rng.choice([1, 1, 2])):
+            i = rng.randrange(len(names) + 1)
+            if rng.random() < 0.5 and len(names) > 1:
+                names[i % len(names)] = w
+            else:
+                names.insert(i, w)
     if not names or not (force or rng.random() < CLASH_STRUCT_SHARE):
         return names
     extra = [lower_first(nm.encode()).decode() for nm in rng.sample(names, min(len(names), rng.choice([1, 1, 2, 3])))]
@@ -526,7 +581,7 @@ def gen_clash_path(rng, d, sites):
         name, aim = u.encode(), "beyond"
         tail = rng.choice([[{"f": hx(rng.choice([b"name", b"title", b"x", b"k1"]))}], [{"i": 0}], [{"k": hx(b"k1")}],
                            [{"f": hx(b"title")}, {"i": -1}]])
-    if not ident_ok(name) or (not steps and name in (b"global", b"range")):
+    if not name_ok(name) or (not steps and name in (b"global", b"range")):
         return None
     path = copy.deepcopy(steps) + [{"f": hx(name)}]
     if tail:
@@ -574,6 +629,116 @@ def gen_clash_data(rng, depth):
     w = rng.choice(WRAPPERS)
     extra = [(kk, gen_value(rng, "iface", 1)) for kk in rng.sample([b"title", b"count", b"meta", b"x"], rng.choice([0, 0, 1, 2]))]
     return wrap(rng, w, v, extra)
+
+
+def gen_wide_data(rng, depth):
+    """page data around a struct with members whose first letter is not ASCII: the hand-written family (fields, an
+    unexported lower-camel twin, methods of both receivers) or a reflect.StructOf type with 1-3 such field names
+    (and, half the time, their unexported lower-camel twins) between ASCII ones; in any position of WRAPPERS - at
+    the top level its members are the page's global names"""
+    if rng.random() < 0.4:
+        v = gen_value(rng, TW("K", rng.choice(WIDE_TYPES)), min(depth, 3))
+    else:
+        names = rng.sample(WIDE_NAMES, rng.choice([1, 2, 2, 3])) + rng.sample(FIELD_NAMES, rng.choice([0, 1, 2]))
+        if rng.random() < 0.5:
+            names += [lower_first(nm.encode()).decode() for nm in rng.sample(names, min(len(names), rng.choice([1, 2])))]
+        names = [x for i, x in enumerate(names) if x not in names[:i]]
+        rng.shuffle(names)
+        leaf = lambda: rng.choice(["str", "str", "int", "bool", "float64", rng.choice(INT_KINDS)])
+        v = gen_value(rng, {"struct": [[nm, leaf() if rng.random() < 0.65 else gen_type(rng, min(depth, 3) - 1)] for nm in names]}, depth)
+    w = rng.choice(WRAPPERS + ["top", "top"])
+    extra = [(kk, gen_value(rng, "iface", 1)) for kk in rng.sample([b"title", b"count", b"meta", b"x"], rng.choice([0, 0, 1, 2]))]
+    return wrap(rng, w, v, extra)
+
+
+def wide_sites(d):
+    """[(steps, node)]: the positions of d whose path goes through a member name with a non-ASCII first letter"""
+    return [(steps, n) for steps, n in positions(d)
+            if any("f" in st and unhx(st["f"])[:1] >= b"\x80" for st in steps)]
+
+
+def gen_wide_path(rng, d, wsites):
+    """a path through a member whose first letter is not ASCII: to a leaf behind it, or with that name capitalised
+    (the Go spelling: never a member); (steps, kind) or None"""
+    steps, n = rng.choice(wsites)
+    steps = copy.deepcopy(steps)
+    if rng.random() < 0.2:
+        i = rng.choice([k for k, st in enumerate(steps) if "f" in st and unhx(st["f"])[:1] >= b"\x80"])
+        steps[i] = {"f": hx(upper_first(unhx(steps[i]["f"])))}
+        return steps, "wide:capitalised"
+    if not is_leafish(n):
+        more, _, n = random_walk(rng, n, rng.choice([1, 2, 3]), first=False)
+        steps += more
+    return steps, "wide:member"
+
+
+# ------------------------------------------------------------------ lists without elements, and statements that push
+# Most lists of real page data are empty. The conversion of one render makes a list of its own for every slice,
+# the empty and the nil ones included: a template that pushes onto one (`- crumbs.push('Home')`) changes that list
+# of that render and nothing else - not the Go data, not another list of the same tree, not what a later render
+# (of this or another page, with this or other data) reads at [0] or [length - 1] of a list without elements.
+
+EMPTIES_SHARE = 0.08        # share of the page data with lists at several places, most of them without elements
+PUSH_SHARE = 0.35           # where page data has a list: share of the values whose paths include push statements
+PUSH_VALUES = [b"Home", b"pushed", b"<b>", b"0", b"x"]
+LIST_FIELD_NAMES = ["Crumbs", "Items", "Tags", "Errors", "Kids", "Rows", "Notes", "Links"]
+
+
+def gen_empties_data(rng, depth):
+    """page data with 2-6 lists at several places of one tree - fields of the page struct / entries of the page map,
+    of a struct below it (by value or behind a pointer), C11Item's Tags - most of them nil or empty"""
+    def lst():
+        et = rng.choice(["str", "str", "int", "iface", {"ptr": "Item"}, "Item", {"struct": [["Name", "str"], ["Price", "int"]]}, {"slice": "str"}])
+        r = rng.random()
+        v = None if r < 0.35 else [] if r < 0.8 else [gen_value(rng, et, 1) for _ in range(rng.choice([1, 2]))]
+        return {"k": "slice", "et": et, "v": v}
+    fields = [(nm, lst()) for nm in rng.sample(LIST_FIELD_NAMES, rng.randint(2, 4))]
+    if rng.random() < 0.6:
+        inner = {"k": "dstruct", "f": [(nm, lst()) for nm in rng.sample(["Items", "Tags", "Path"], 2)] + [("Name", S(rng.choice(STRINGS)))]}
+        fields.append(("Box", inner if rng.random() < 0.5 else {"k": "ptr", "t": ty(inner), "v": inner}))
+    if rng.random() < 0.4:
+        fields.append(("Item", {"k": "Item", "f": {"Name": S(b"n"), "Tags": {"k": "slice", "et": "str", "v": rng.choice([None, []])}}}))
+    fields.append(("Title", S(rng.choice(STRINGS))))
+    rng.shuffle(fields)
+    if rng.random() < 0.55:
+        holder = {"k": "dstruct", "f": fields}
+    else:
+        holder = {"k": "map", "et": "iface", "v": [(lower_first(nm.encode()), {"k": "iface", "named": False, "v": v}) for nm, v in fields]}
+    w = rng.choice(WRAPPERS + ["top", "top", "top"])
+    extra = [(kk, gen_value(rng, "iface", 1)) for kk in rng.sample([b"title", b"count", b"meta", b"x"], rng.choice([0, 0, 1]))]
+    return wrap(rng, w, holder, extra)
+
+
+def list_kind(ln):
+    return "nil_list" if ln["v"] is None else "empty_list" if not ln["v"] else "list"
+
+
+def add_pushes(rng, d, paths, kinds, lists):
+    """puts 1-3 push statements (on lists of d, mostly on those without elements) among the first paths, and after
+    them reads of [0], [length - 1 + 1], [0].name of lists without elements (the same list and others)"""
+    empties = [l for l in lists if not l[1]["v"]]
+    at = 0
+    for _ in range(rng.choice([1, 1, 2, 3])):
+        lsteps, ln = rng.choice(empties if empties and rng.random() < 0.8 else lists)
+        at = rng.randint(at, min(len(paths), at + 2))
+        paths.insert(at, {"steps": copy.deepcopy(lsteps), "raw": False, "push": hx(rng.choice(PUSH_VALUES))})
+        kinds.insert(at, "push:" + list_kind(ln))
+        at += 1
+    have = {json.dumps(p["steps"]) for p in paths if "push" not in p}
+    for lsteps, ln in rng.sample(empties, min(len(empties), rng.choice([1, 2, 3]))):
+        r = rng.random()
+        if r < 0.6:
+            st, form = {"i": 0}, "literal"
+        elif r < 0.8:
+            st, form = {"i": 0, "w": {"len": lsteps, "add": 0}}, "length"
+        else:
+            other = rng.choice(empties)
+            st, form = {"i": -1, "w": {"len": other[0], "add": -1}}, "length"
+        steps = copy.deepcopy(lsteps) + [st] + rng.choice([[], [], [{"f": hx(b"name")}]])
+        if json.dumps(steps) not in have:
+            have.add(json.dumps(steps))
+            paths.append({"steps": steps, "raw": rng.random() < 0.2})
+            kinds.append("index:%s:%s:%s" % ("below_zero" if st["i"] < 0 else "beyond_length", form, list_kind(ln)))
 
 
 def gen_int(rng, kind):
@@ -729,6 +894,11 @@ def gen_data(rng, tier):
     if rng.random() < CLASH_SHARE / (1 - INDEXED_SHARE):
         return gen_clash_data(rng, depth)
     r = rng.random()
+    if r < WIDE_SHARE:
+        return gen_wide_data(rng, depth)
+    if r < WIDE_SHARE + EMPTIES_SHARE:
+        return gen_empties_data(rng, depth)
+    r = rng.random()
     if r < 0.40:      # the usual page data: map[string]interface{}
         keys = with_case_pair(rng, rng.sample([k for k in MAP_KEYS if ident_ok(k)], rng.randint(1, 5)))
         return {"k": "map", "et": "iface", "v": [(kk, gen_value(rng, "iface", depth)) for kk in keys]}
@@ -825,7 +995,7 @@ def fold_variants(name):
         if a in name:
             out.append(name.replace(a, b_))
             out.append(lower_first(name.replace(a, b_)))
-    return [x for x in out if x != name and ident_ok(x)]
+    return [x for x in out if x != name and name_ok(x)]
 
 
 def break_path(rng, d, steps, tags):
@@ -868,7 +1038,7 @@ def break_path(rng, d, steps, tags):
         own = [nm for nm, ex, _ in fam_view(sn)[0] if not ex] if is_struct(sn) else []
         if own and rng.random() < 0.7:      # an unexported field that is really there
             nm = rng.choice(own).encode()
-            if ident_ok(nm):
+            if name_ok(nm):
                 return steps[:i + 1] + [{"f": hx(rng.choice([nm, nm, upper_first(nm)]))}] + ([{"f": hx(b"x")}] if rng.random() < 0.3 else []), "unexported"
         return steps[:i + 1] + [{"f": hx(rng.choice([b"hidden", b"secret", b"Hidden"]))}] + ([{"f": hx(b"x")}] if rng.random() < 0.3 else []), "unexported"
     if r < 0.76:          # undefined top-level name with a tail
@@ -932,15 +1102,24 @@ def admit(rng, d, steps, raw):
     return True, raw
 
 
-def gen_paths(rng, d, tier):
+def gen_paths(rng, d, tier, push_share=PUSH_SHARE):
     n = rng.randint(3, 8) if tier == "quick" else rng.randint(4, 10)
     out, kinds = [], []
     seen = set()
     sites = index_sites(d)
     csites = clash_sites(d)
+    wsites = wide_sites(d)
     for _ in range(n * 4):
         if len(out) >= n:
             break
+        if wsites and rng.random() < WIDE_PATH_SHARE:
+            wp = gen_wide_path(rng, d, wsites)
+            keep, raw = admit(rng, d, wp[0], rng.random() < 0.2)
+            if keep and (json.dumps(wp[0]), raw) not in seen:
+                seen.add((json.dumps(wp[0]), raw))
+                out.append({"steps": wp[0], "raw": raw})
+                kinds.append(wp[1])
+            continue
         if csites and rng.random() < CLASH_PATH_SHARE:
             cp = gen_clash_path(rng, d, csites)
             if cp:
@@ -977,6 +1156,8 @@ def gen_paths(rng, d, tier):
     if not out:
         out.append({"steps": [{"f": hx(b"missing")}], "raw": False})
         kinds.append("undefined_top")
+    if sites[2] and rng.random() < push_share:
+        add_pushes(rng, d, out, kinds, sites[2])
     return out, kinds
 
 
@@ -1147,8 +1328,8 @@ ARRAY_STRING_MEMBERS = [b"length", b"indexOf", b"join", b"push", b"pop", b"shift
 
 # ------------------------------------------------------------------ histories: look-alike values one after the other
 
-SEQ_KINDS = [("twins_local", 0.24), ("twins_pkg", 0.12), ("permuted", 0.14), ("retyped", 0.12), ("resized", 0.10),
-             ("clash_orders", 0.14), ("mixed", 0.14)]
+SEQ_KINDS = [("twins_local", 0.20), ("twins_pkg", 0.10), ("permuted", 0.12), ("retyped", 0.10), ("resized", 0.08),
+             ("clash_orders", 0.12), ("mixed", 0.12), ("pushes", 0.16)]
 WRAPPERS = ["key", "key", "ptrkey", "top", "slice", "field", "any", "typedmap", "ptrfield"]
 
 
@@ -1243,6 +1424,12 @@ def gen_history(rng, tier):
         if r < 0:
             break
     depth = rng.choice([1, 1, 2, 2, 3])
+    if kind == "pushes":                  # pages that push onto their lists, pages that read lists without elements
+        values = []
+        for k in range(rng.choice([2, 2, 3, 4])):
+            d = gen_empties_data(rng, 2) if rng.random() < 0.7 else gen_indexed_data(rng, 2)
+            values.append((d,) + gen_paths(rng, d, tier, push_share=0.85 if k == 0 else 0.5))
+        return values, kind
     if kind == "mixed":                   # an arbitrary history of ordinary page data
         datas = [gen_data(rng, tier) for _ in range(rng.choice([2, 3, 3, 4]))]
     else:
@@ -1362,7 +1549,24 @@ class C11(Prop):
             "capitalised spelling, a neighbour in the same struct, a step beyond an unexported composite); 14% of the "
             "histories render the same colliding members in 2-3 declaration orders (all permutations over the run) "
             "and ask every value the colliding names (the coverage reports the declared collisions and the paths "
-            "through them by kind x order). Non-trivial = a single value with at least one "
+            "through them by kind x order). NAMES BEYOND ASCII: Go exports a name whose first LETTER is upper-case and "
+            "lowerFirst lowers the first RUNE; 12% of all reflect.StructOf types carry 1-2 field names with a two-byte "
+            "initial (Ärger, Übersicht, Österreich, Élan, Øre, Þing; Ωmega, Δelta, Σum; Жук, Яблоко; 19 names) in any "
+            "position, with their unexported lower-camel twins (ärger) at the usual collision share; the hand-written "
+            "types Wide / WideBox of harness/c11_clash (such fields, an unexported twin, a value-receiver and a "
+            "pointer-receiver method with such names, nesting by value and by pointer) occur wherever a family type can; "
+            "8% of the page data is built around such a struct in any position - also AS the page data, where its members "
+            "are the page's global names; where a value has such members half of its paths go through one (by the "
+            "lower-camel name, 20% by the Go spelling, which is never a member). LISTS WITHOUT ELEMENTS AND PUSHES: a path "
+            "entry may be a statement `- path.push('v')` on a list of the page data, rendered like a path (its own "
+            "template, its own render; it must print nothing and raise nothing); wherever page data has a list, 35% of "
+            "the values get 1-3 such statements among their first paths - 80% of them on nil or empty lists - followed by "
+            "reads of [0], [length], [other.length - 1], [0].name of lists without elements (the same list and others); "
+            "8% of the page data has 2-6 lists at several places of one tree (page struct / page map, a struct below it by "
+            "value or by pointer, C11Item.Tags), 80% of them nil or empty; 16% of the histories are 2-4 such pages where "
+            "the first pushes (85%) and the later ones push (50%) and read (the coverage counts the pushes by kind of "
+            "list, the reads of lists without elements after a push, and the histories where they are in different "
+            "renders). Non-trivial = a single value with at least one "
             "path of two or more steps that prints a non-empty leaf and at least one path that reaches nothing, or a "
             "history of at least two different types in which one and the same path prints different things for two "
             "values; distinct by SHA-1 of the case")
@@ -1379,13 +1583,22 @@ class C11(Prop):
         "the data tree (the Go int at that path, Go's len of that slice, plus the constant) and handed to the judge as "
         "`Idx true z`; that the template's own arithmetic (Number member, Array.length, __op__sub/__op__add) yields "
         "that integer is covered by the correspondence (in-range computed indices must print the element), not by a theorem",
+        "the lowering of the first rune of a member name for the judge (Run/Judge_C11.v lower_rune: U+00C0..U+00DE, "
+        "U+0391..U+03A9, U+0410..U+042F, spot-checked there against the Unicode tables) and, independently, Python's "
+        "str.lower for the names the generated templates write; Go's unicode.IsUpper decides in the harness which "
+        "reflect.StructOf fields are exported",
         "process isolation by the harness: every case runs in a freshly started process (os/exec of the harness binary), "
         "so a verdict depends on the case alone and a replay reproduces it",
     ]
     assumptions = [
         "a Go value is the tree reflect exposes: an embedded struct is a field named after its type plus the promoted "
         "methods; Go's promoted-field shorthand (e.note for e.C11Base.Note) is not a path of that tree (observed: prints nothing)",
-        "names are ASCII; the first name of a path is not a registered template function, `global` or `range`",
+        "names are ASCII, or (fields and methods of structs only, judged on the tree with the first rune of every "
+        "exported member name lowered - Judge_C11 norm / dom_wide; the theorems of Props/C11.v are stated on the ASCII "
+        "mapping) begin with a two-byte upper-case letter of Latin-1, Greek or Cyrillic; other initials (three-byte "
+        "letters, title-case digraphs, letters whose lower-case is longer) are declined; map keys with a non-ASCII "
+        "upper-case initial are not generated; the first name of a path is not a registered template function, "
+        "`global` or `range`",
         "Go's own rules keep the exported members of one struct distinct under the lower-camel mapping (two exported "
         "names differ beyond their first letter; a field and a method of one type cannot share a name; a shallower "
         "field hides a promoted one), which is the NoDup hypothesis of C11_declaration_order; the unexported fields "
@@ -1393,11 +1606,15 @@ class C11(Prop):
         "an index is an integer within int64 (explored: -2^62 .. 2^62; numbers taken from the data within 2^50, where a "
         "pugjs Number - a float64 - is exact); an index in range on a string (a byte) is outside the domain, an index "
         "out of range on a string is inside (prints nothing)",
-        "methods and func values are pure and do not panic; page data is not mutated during a render",
+        "methods and func values are pure and do not panic; the Go page data is not mutated during a render: a push "
+        "statement changes only the list that the conversion made for its own render (its own effect inside that "
+        "render is not read back: every path and every statement is a template and a render of its own), so the spec "
+        "of every other path and value is the spec without the statement",
         "production wiring: a logger is configured and debug mode is off (panicOrError logs instead of panicking)",
         "the model keeps nothing between two conversions (C11_history is the per-render statement mapped over a history); "
         "that the real code keeps nothing either - no table in the process or the engine that outlives one converted "
-        "value - is explored by the histories (one process, one engine, up to 5 values), not proved; renders of one "
+        "value - is explored by the histories (one process, one engine, up to 5 values; look-alike types, and pages that push onto "
+        "their lists before other pages read lists without elements), not proved; renders of one "
         "history are sequential (concurrent renders are C08's)",
     ]
     not_yet_proved = []
@@ -1435,7 +1652,7 @@ class C11(Prop):
                 # corpus file; the generator and the shrinker never produce one): the judge declines (no steps)
                 steps = p["steps"] if steps_resolved(d, p["steps"]) else []
                 ps.append(b"{| po_steps := " + cq_list([coq_step(s, d) for s in steps]) + b"; po_raw := " + cq_bool(p["raw"]) +
-                          b"; po_class := " + cq_nat(cls) + b"; po_out := " + cq_bytes(out) + b" |}")
+                          b"; po_stmt := " + cq_bool("push" in p) + b"; po_class := " + cq_nat(cls) + b"; po_out := " + cq_bytes(out) + b" |}")
             vs.append(b"{| data := " + coq_gv(d) + b"; paths := " + cq_list(ps) + b" |}")
         return cq_list(vs)
 
@@ -1471,23 +1688,28 @@ class C11(Prop):
             d = from_json(c["data"])
             if all(steps_resolved(d, p["steps"]) for p in c["paths"]):
                 # the value noted next to a computed index follows the (smaller) data
-                yield {"data": c["data"], "paths": [{"steps": [dict(st, i=idx_value(d, st)) if "i" in st else st for st in p["steps"]],
-                                                     "raw": p["raw"]} for p in c["paths"]]}
+                yield {"data": c["data"], "paths": [dict(p, steps=[dict(st, i=idx_value(d, st)) if "i" in st else st for st in p["steps"]])
+                                                     for p in c["paths"]]}
 
     def shrink_value_raw(self, v):
         ps = v["paths"]
         if len(ps) > 1:
             for i in range(len(ps)):
                 yield {"data": v["data"], "paths": [ps[i]]}
+            for i in range(len(ps)) if len(ps) <= 16 else []:     # a statement and a read after it: drop the others
+                yield {"data": v["data"], "paths": ps[:i] + ps[i + 1:]}
+            if len(ps) <= 3 and any("push" in p for p in ps):
+                for smaller in shrink_json(v["data"]):
+                    yield {"data": smaller, "paths": ps}
             return
         # one path left: shorten it, write its computed indices as literals, then drop parts of the data
         steps = ps[0]["steps"]
         for i in range(len(steps) - 1, 0, -1):
-            yield {"data": v["data"], "paths": [{"steps": steps[:i] + steps[i + 1:], "raw": ps[0]["raw"]}]}
+            yield {"data": v["data"], "paths": [dict(ps[0], steps=steps[:i] + steps[i + 1:])]}
         d = from_json(v["data"])
         for i, st in enumerate(steps):
             if "i" in st and st.get("w") and idx_value(d, st) is not None:
-                yield {"data": v["data"], "paths": [{"steps": steps[:i] + [{"i": idx_value(d, st)}] + steps[i + 1:], "raw": ps[0]["raw"]}]}
+                yield {"data": v["data"], "paths": [dict(ps[0], steps=steps[:i] + [{"i": idx_value(d, st)}] + steps[i + 1:])]}
         for smaller in shrink_json(v["data"]):
             yield {"data": smaller, "paths": ps}
 
@@ -1516,7 +1738,13 @@ class C11(Prop):
              "cases_with_an_index_below_zero": 0,
              "values_with_a_struct_that_declares_unexported_fields": 0, "unexported_fields_declared_in_reachable_structs": {},
              "paths_that_name_an_unexported_field": 0, "paths_that_name_an_unexported_field_by_collision": {},
-             "paths_through_a_collision_go_nonempty": 0, "cases_with_a_path_through_a_collision": 0}
+             "paths_through_a_collision_go_nonempty": 0, "cases_with_a_path_through_a_collision": 0,
+             "values_with_a_member_whose_first_letter_is_not_ascii": 0, "paths_through_such_a_member": 0,
+             "paths_through_such_a_member_go_nonempty": 0, "cases_with_a_path_through_such_a_member": 0,
+             "values_with_a_list_without_elements": 0, "values_with_several_lists_without_elements": 0,
+             "push_statements": 0, "push_statements_on": {}, "reads_of_a_list_without_elements_after_a_push_in_the_same_case": 0,
+             "cases_with_a_push_and_a_later_read_of_a_list_without_elements": 0,
+             "histories_with_a_push_in_one_render_and_such_a_read_in_a_later_one": 0}
         for c, o in zip(cases, obss):
             vals, vobs = case_values(c), obs_values(o)
             if "seq" in c:
@@ -1532,9 +1760,37 @@ class C11(Prop):
                     d["histories_whose_page_data_types_share_a_name"][nm] = d["histories_whose_page_data_types_share_a_name"].get(nm, 0) + 1
             d["cases_with_an_index_below_zero"] += any(k.startswith("index:below_zero") for v in vals for k in v.get("kinds") or [])
             through = False
+            wide_through, pushed, pushed_before_value, later_reads, across = False, False, False, 0, False
             for v, ob in zip(vals, vobs):
                 d["values"] += 1
                 t = self.tree_of(v)
+                pushed_before_value = pushed
+                d["values_with_a_member_whose_first_letter_is_not_ascii"] += bool(wide_sites(t))
+                nolen = [l for l in index_sites(t)[2] if not l[1]["v"]]
+                d["values_with_a_list_without_elements"] += bool(nolen)
+                d["values_with_several_lists_without_elements"] += len(nolen) >= 2
+                for p, r in zip(v["paths"], ob["paths"]):
+                    if "push" in p:
+                        pushed = True
+                        d["push_statements"] += 1
+                        end, _ = py_walk(t, p["steps"])
+                        sn, _ = strip(end) if end is not None else (None, False)
+                        kd = list_kind(sn) if sn is not None and sn["k"] == "slice" else "other"
+                        d["push_statements_on"][kd] = d["push_statements_on"].get(kd, 0) + 1
+                        continue
+                    if any("f" in st and unhx(st["f"])[:1] >= b"\x80" for st in p["steps"]):
+                        d["paths_through_such_a_member"] += 1
+                        d["paths_through_such_a_member_go_nonempty"] += r["class"] == "ok" and bool(r.get("out"))
+                        wide_through = True
+                    if pushed and steps_resolved(t, p["steps"]):       # a read that ends at or behind an index on a list without elements
+                        for i, st in enumerate(p["steps"]):
+                            if "i" in st:
+                                at, _ = py_walk(t, p["steps"][:i])
+                                sn, _ = strip(at) if at is not None else (None, False)
+                                if sn is not None and sn["k"] == "slice" and not sn["v"]:
+                                    later_reads += 1
+                                    across = across or pushed_before_value
+                                    break
                 cs = clash_sites(t)
                 d["values_with_a_struct_that_declares_unexported_fields"] += bool(cs)
                 for _, sn, via_ptr in cs:
@@ -1570,12 +1826,19 @@ class C11(Prop):
                             d[h][x] = d[h].get(x, 0) + 1
                         d["index_below_zero_go_empty"] += side == "below_zero" and r["class"] == "ok" and not r.get("out")
                         d["path_kinds"]["index"] = d["path_kinds"].get("index", 0) + 1
+                    elif kinds and (kinds[i].startswith("wide:") or kinds[i].startswith("push:")):
+                        kd = "through_a_non_ascii_initial" if kinds[i].startswith("wide:") else "push_statement"
+                        d["path_kinds"][kd] = d["path_kinds"].get(kd, 0) + 1
                     elif kinds and kinds[i].startswith("clash:"):
                         d["path_kinds"]["aims_at_a_collision"] = d["path_kinds"].get("aims_at_a_collision", 0) + 1
                     elif kinds:
                         d["path_kinds"][kinds[i]] = d["path_kinds"].get(kinds[i], 0) + 1
                         d["history_paths_of_another_value"] += kinds[i] == "of_another_value"
             d["cases_with_a_path_through_a_collision"] += through
+            d["cases_with_a_path_through_such_a_member"] += wide_through
+            d["reads_of_a_list_without_elements_after_a_push_in_the_same_case"] += later_reads
+            d["cases_with_a_push_and_a_later_read_of_a_list_without_elements"] += later_reads > 0
+            d["histories_with_a_push_in_one_render_and_such_a_read_in_a_later_one"] += across and "seq" in c
         return d
 
 
